@@ -166,6 +166,176 @@ Proof.
   eexists. split; [reflexivity|]. constructor; [|exact F]. unfold map_in. cbn. lia.
 Qed.
 
+(* ---- table writes ---- *)
+Lemma nth_error_firstn' {A} : forall (k n : nat) (l : list A), (n < k)%nat -> nth_error (firstn k l) n = nth_error l n.
+Proof. induction k as [|k IH]; intros n l H; [lia|]. destruct l as [|x l]; [reflexivity|]. destruct n as [|n]; [reflexivity|]. cbn. apply IH. lia. Qed.
+Lemma nth_error_skipn'' {A} : forall (k n : nat) (l : list A), nth_error (skipn k l) n = nth_error l (k + n).
+Proof. induction k as [|k IH]; intros n l; [reflexivity|]. destruct l as [|x l]; [destruct n; reflexivity|]. cbn [skipn Nat.add nth_error]. apply IH. Qed.
+
+Lemma tb_nonneg l i : 0 <= i -> tb l i = match nth_error l (Z.to_nat i) with Some v => Ok v | None => Raise IndexError end.
+Proof. intros H. unfold tb. cbv zeta. assert (E : (i <? 0) = false) by lia. rewrite !E. reflexivity. Qed.
+
+Lemma tb_set_spec l i v l' : tb_set l i v = Ok l' -> 0 <= i ->
+  tb l' i = Ok v /\ (forall j, 0 <= j -> j <> i -> tb l' j = tb l j) /\ len l' = len l.
+Proof.
+  unfold tb_set. cbv zeta. intros H Hi. assert (E : (i <? 0) = false) by lia. rewrite !E in H.
+  destruct (len l <=? i) eqn:X; cbn [orb] in H; [discriminate H|]. injection H as <-.
+  assert (Li : (Z.to_nat i < length l)%nat) by (unfold len in X; lia).
+  assert (Lf : length (firstn (Z.to_nat i) l) = Z.to_nat i) by (rewrite firstn_length; lia).
+  split; [|split].
+  - rewrite tb_nonneg by lia. rewrite nth_error_app2 by lia. rewrite Lf, Nat.sub_diag. reflexivity.
+  - intros j Hj Nj. rewrite !tb_nonneg by lia.
+    destruct (Z_lt_le_dec j i) as [Lt|Ge].
+    + rewrite nth_error_app1 by lia. rewrite nth_error_firstn' by lia. reflexivity.
+    + rewrite nth_error_app2 by lia. rewrite Lf.
+      replace (Z.to_nat j - Z.to_nat i)%nat with (S (Z.to_nat j - S (Z.to_nat i))) by lia.
+      change (match l with [] => [] | _ :: l0 => skipn (Z.to_nat i) l0 end) with (skipn (S (Z.to_nat i)) l).
+      cbn [nth_error]. rewrite nth_error_skipn''. replace (S (Z.to_nat i) + (Z.to_nat j - S (Z.to_nat i)))%nat with (Z.to_nat j) by lia. reflexivity.
+  - unfold len. rewrite app_length. change (match l with [] => [] | _ :: l0 => skipn (Z.to_nat i) l0 end) with (skipn (S (Z.to_nat i)) l).
+    cbn [length]. rewrite Lf, skipn_length. lia.
+Qed.
+
+(* a start mark x and indent t are good for line l *)
+Definition goodbt (src : str) (eM : list Z) (l x t : Z) : Prop :=
+  forall e, tb eM l = Ok e -> 0 <= x /\ 0 <= t /\ 0 <= e /\ forall p, x <= p < e -> py_idx src p <> Ok 10.
+
+Lemma TIp_good src bM eM tS l b t : TIp src bM eM tS -> 0 <= l -> tb bM l = Ok b -> tb tS l = Ok t -> goodbt src eM l b t.
+Proof. intros H Hl Eb Et e Ee. exact (H l b e t Hl Eb Ee Et). Qed.
+
+Lemma goodbt_mono src eM l x t x' t' : goodbt src eM l x t -> x <= x' -> 0 <= t' -> goodbt src eM l x' t'.
+Proof. intros H Hx Ht e Ee. destruct (H e Ee) as (A & B & C & D). repeat split; try lia. intros p Hp. apply D. lia. Qed.
+
+Lemma TIp_set src bM eM tS l x t bM' tS' :
+  TIp src bM eM tS -> 0 <= l -> tb_set bM l x = Ok bM' -> tb_set tS l t = Ok tS' -> goodbt src eM l x t ->
+  TIp src bM' eM tS'.
+Proof.
+  intros H Hl Sb St G l' b e t' Hl' Eb Ee Et.
+  destruct (tb_set_spec _ _ _ _ Sb Hl) as (B1 & B2 & _). destruct (tb_set_spec _ _ _ _ St Hl) as (T1 & T2 & _).
+  destruct (Z.eq_dec l' l) as [->|N].
+  - rewrite B1 in Eb. rewrite T1 in Et. injection Eb as <-. injection Et as <-. exact (G e Ee).
+  - rewrite B2 in Eb by lia. rewrite T2 in Et by lia. exact (H l' b e t' Hl' Eb Ee Et).
+Qed.
+
+Lemma TIp_set_ts src bM eM tS l t tS' :
+  TIp src bM eM tS -> 0 <= l -> tb_set tS l t = Ok tS' -> 0 <= t -> TIp src bM eM tS'.
+Proof.
+  intros H Hl St Ht l' b e t' Hl' Eb Ee Et.
+  destruct (tb_set_spec _ _ _ _ St Hl) as (T1 & T2 & L).
+  destruct (Z.eq_dec l' l) as [->|N].
+  - rewrite T1 in Et. injection Et as <-.
+    destruct (tb tS l) as [t0|?|] eqn:E0.
+    + destruct (H l b e t0 Hl Eb Ee E0) as (A & B & C & D). repeat split; try lia. exact D.
+    + exfalso. rewrite tb_nonneg in E0, T1 by lia.
+      destruct (nth_error tS (Z.to_nat l)) eqn:X; [discriminate E0|]. apply nth_error_None in X.
+      destruct (nth_error tS' (Z.to_nat l)) eqn:Y; [|discriminate T1].
+      assert (Z.to_nat l < length tS')%nat by (apply nth_error_Some; congruence). unfold len in L. lia.
+    + unfold tb in E0. cbv zeta in E0. destruct (if (if l <? 0 then l + len tS else l) <? 0 then None else nth_error tS (Z.to_nat (if l <? 0 then l + len tS else l))); discriminate E0.
+  - rewrite T2 in Et by lia. exact (H l' b e t' Hl' Eb Ee Et).
+Qed.
+
+(* ---- block quote arithmetic ---- *)
+Lemma bq_blanks_mono : forall fuel src pos mx offset bs adj p2 o2,
+  bq_blanks fuel src pos mx offset bs adj = Ok (p2, o2) -> pos <= p2 /\ offset <= o2.
+Proof.
+  induction fuel as [|f IH]; intros src pos mx offset bs adj p2 o2 H; cbn [bq_blanks] in H; [rfinish H; lia|].
+  destruct (negb (pos <? mx)); [rfinish H; lia|].
+  rstep H. destruct (is_space x); [|rfinish H; lia].
+  apply IH in H. destruct (x =? 9); [|lia].
+  assert (0 <= (offset + bs + (if adj then 1 else 0)) mod 4 < 4) by (apply Z.mod_pos_bound; lia). lia.
+Qed.
+
+Lemma bq_strip_spec src pos0 mx sc bs q : bq_strip src pos0 mx sc bs = Ok q ->
+  pos0 + 1 <= q_bMark q /\ 0 <= q_tShift q /\ 0 <= q_sCount q.
+Proof.
+  unfold bq_strip. cbv zeta.
+  set (tup := match char_at src (pos0 + 1) with
+              | Some 32 => (pos0 + 1 + 1, sc + 1 + 1, sc + 1 + 1, false, true)
+              | Some 9 => if (bs + (sc + 1)) mod 4 =? 3 then (pos0 + 1 + 1, sc + 1 + 1, sc + 1 + 1, false, true)
+                          else (pos0 + 1, sc + 1, sc + 1, true, true)
+              | _ => (pos0 + 1, sc + 1, sc + 1, false, false)
+              end).
+  assert (P : let '(pos1, initial, offset, _, _) := tup in pos0 + 1 <= pos1 /\ offset = initial).
+  { unfold tup. destruct (char_at src (pos0 + 1)) as [[|p|p]|]; try (split; [lia | reflexivity]).
+    do 6 (try destruct p as [p|p|]); try (split; [lia | reflexivity]).
+    destruct ((bs + (sc + 1)) mod 4 =? 3); split; try lia; reflexivity. }
+  destruct tup as [[[[pos1 initial] offset] adj] sa]. destruct P as [P1 ->].
+  intros H. match type of H with bind ?m _ = _ => destruct m as [[p2 o2]|?|] eqn:BB end; cbn [bind] in H; try discriminate H.
+  apply bq_blanks_mono in BB. rfinish H. cbn. lia.
+Qed.
+
+(* frame of the table-rewriting helpers: everything but the four rewritten tables and lineMax *)
+Definition k5 (st st' : bstate) : Prop :=
+  b_tokens st' = b_tokens st /\ b_line st' = b_line st /\ b_src st' = b_src st /\ b_eMarks st' = b_eMarks st
+  /\ b_blkIndent st' = b_blkIndent st.
+Lemma k5_refl st : k5 st st. Proof. repeat split. Qed.
+Lemma k5_trans a b c : k5 a b -> k5 b c -> k5 a c.
+Proof. unfold k5. intros (A1 & A2 & A3 & A4 & A5) (B1 & B2 & B3 & B4 & B5). repeat split; congruence. Qed.
+Lemma fr_k5 st st' : fr st st' -> k5 st st'.
+Proof. intros H. rewrite H. repeat split. Qed.
+
+(* saved table entries are good for the lines they were taken from *)
+Fixpoint sv_ok (src : str) (eM : list Z) (line : Z) (b ts : list Z) : Prop :=
+  match b, ts with
+  | x :: b', t :: ts' => goodbt src eM line x t /\ sv_ok src eM (line + 1) b' ts'
+  | _, _ => True
+  end.
+
+Lemma sv_ok_snoc src eM : forall b ts line x t, sv_ok src eM line b ts -> length b = length ts ->
+  goodbt src eM (line + len b) x t -> sv_ok src eM line (b ++ [x]) (ts ++ [t]).
+Proof.
+  induction b as [|y b IH]; intros ts line x t H L G.
+  - destruct ts; [|discriminate L]. cbn. unfold len in G. cbn in G. rewrite Z.add_0_r in G. split; [exact G | trivial].
+  - destruct ts as [|u ts]; [discriminate L|]. cbn [app sv_ok] in *. destruct H as [H1 H2]. split; [exact H1|].
+    apply IH; [exact H2 | cbn in L; lia|]. replace (line + 1 + len b) with (line + len (y :: b)) by (unfold len; cbn [length]; lia). exact G.
+Qed.
+
+Lemma apply_bq_m st line q st' : apply_bq st line q = Ok st' -> 0 <= line -> TI st ->
+  goodbt (b_src st) (b_eMarks st) line (q_bMark q) (q_tShift q) ->
+  TI st' /\ k5 st st' /\ b_lineMax st' = b_lineMax st /\ tb (b_sCount st') line = Ok (q_sCount q)
+  /\ (forall j, 0 <= j -> j <> line -> tb (b_sCount st') j = tb (b_sCount st) j).
+Proof.
+  unfold apply_bq. intros H Hl HT G.
+  destruct (tb_set (b_bMarks st) line (q_bMark q)) as [bm|?|] eqn:E1; cbn [bind] in H; try discriminate H.
+  destruct (tb_set (b_bsCount st) line (q_bsCount q)) as [bs|?|] eqn:E2; cbn [bind] in H; try discriminate H.
+  destruct (tb_set (b_sCount st) line (q_sCount q)) as [sc|?|] eqn:E3; cbn [bind] in H; try discriminate H.
+  destruct (tb_set (b_tShift st) line (q_tShift q)) as [ts|?|] eqn:E4; cbn [bind] in H; try discriminate H.
+  rfinish H. destruct (tb_set_spec _ _ _ _ E3 Hl) as (S1 & S2 & _).
+  split; [exact (TIp_set _ _ _ _ _ _ _ _ _ HT Hl E1 E4 G)|]. split; [repeat split|]. split; [reflexivity|].
+  split; [exact S1 | exact S2].
+Qed.
+
+Lemma save_line_m sv st line sv' sl0 : save_line sv st line = Ok sv' -> 0 <= line -> TI st ->
+  sv_ok (b_src st) (b_eMarks st) sl0 (o_b sv) (o_ts sv) -> len (o_b sv) = line - sl0 -> len (o_ts sv) = line - sl0 ->
+  sv_ok (b_src st) (b_eMarks st) sl0 (o_b sv') (o_ts sv') /\ len (o_b sv') = line + 1 - sl0 /\ len (o_ts sv') = line + 1 - sl0.
+Proof.
+  unfold save_line. intros H Hl HT SO L1 L2.
+  destruct (tb (b_bMarks st) line) as [b|?|] eqn:Eb; cbn [bind] in H; try discriminate H.
+  rstep H. destruct (tb (b_tShift st) line) as [t|?|] eqn:Et; cbn [bind] in H; try discriminate H.
+  rstep H. rfinish H. cbn [o_b o_ts]. split.
+  - apply sv_ok_snoc; [exact SO | unfold len in *; lia|]. replace (sl0 + len (o_b sv)) with line by lia.
+    exact (TIp_good _ _ _ _ _ _ _ HT Hl Eb Et).
+  - rewrite !len_app. unfold len at 2 4. cbn [length]. lia.
+Qed.
+
+Lemma restore_tables_m : forall ts st line b bs sc st',
+  restore_tables st line b bs ts sc = Ok st' -> 0 <= line -> TI st ->
+  sv_ok (b_src st) (b_eMarks st) line b ts ->
+  TI st' /\ k5 st st' /\ b_lineMax st' = b_lineMax st.
+Proof.
+  induction ts as [|t ts IH]; intros st line b bs sc st' H Hl HT SO.
+  - destruct b, sc, bs; cbn [restore_tables] in H; rfinish H; (split; [exact HT|]; split; [apply k5_refl | reflexivity]).
+  - destruct b as [|x b]; [discriminate H|]. destruct sc as [|s sc]; [discriminate H|]. destruct bs as [|y bs]; [discriminate H|].
+    cbn [restore_tables] in H. cbn [sv_ok] in SO. destruct SO as [G SO].
+    destruct (tb_set (b_bMarks st) line x) as [bm|?|] eqn:E1; cbn [bind] in H; try discriminate H.
+    destruct (tb_set (b_tShift st) line t) as [tsl|?|] eqn:E2; cbn [bind] in H; try discriminate H.
+    do 2 rstep H.
+    apply IH in H; [|lia| |].
+    + destruct H as (A & B & C). split; [exact A|]. split; [|exact C].
+      eapply k5_trans; [|exact B]. repeat split.
+    + exact (TIp_set _ _ _ _ _ _ _ _ _ HT Hl E1 E2 G).
+    + exact SO.
+Qed.
+
 Section Rules.
 Context (cfg : bcfg) (rf cf : str -> str).
 
@@ -445,6 +615,145 @@ Proof.
     eexists. split; [reflexivity|]. constructor; [unfold map_in; cbn; lia|].
     apply Forall_app. split; [exact FH|]. constructor; [unfold map_in; cbn; lia|].
     repeat (apply Forall_app; split); try exact FR; repeat constructor; unfold map_in; cbn; trivial.
+Qed.
+
+(* ---- block quote ---- *)
+Ltac split7 := refine (conj _ (conj _ (conj _ (conj _ (conj _ (conj _ _)))))).
+
+Lemma bq_loop_m term (T : term_fr term) sl0 : forall fuel st sv nl el lle r sv' st',
+  bq_loop fuel term st sv nl el lle = Ok (r, sv', st') ->
+  0 <= sl0 -> sl0 < nl -> nl <= el -> el <= b_lineMax st -> TI st ->
+  sv_ok (b_src st) (b_eMarks st) sl0 (o_b sv) (o_ts sv) -> len (o_b sv) = nl - sl0 -> len (o_ts sv) = nl - sl0 ->
+  nl <= r <= el /\ r <= b_lineMax st' /\ b_lineMax st' <= b_lineMax st /\ TI st'
+  /\ sv_ok (b_src st') (b_eMarks st') sl0 (o_b sv') (o_ts sv') /\ k5 st st'
+  /\ (forall j, 0 <= j < nl -> tb (b_sCount st') j = tb (b_sCount st) j).
+Proof.
+  induction fuel as [|f IH]; intros st sv nl el lle r sv' st' H S0 S1 L0 L1 HT SO N1 N2; [discriminate H|].
+  cbn [bq_loop] in H.
+  destruct (negb (nl <? el)) eqn:NE; [injection H as <- <- <-; split7; first [lia | assumption | apply k5_refl | (intros; reflexivity)]|].
+  destruct (tb (b_sCount st) nl) as [sc|?|] eqn:Esc; cbn [bind] in H; try discriminate H.
+  destruct (line_start st nl) as [pos|?|] eqn:LS; cbn [bind] in H; try discriminate H.
+  destruct (tb (b_eMarks st) nl) as [mx|?|] eqn:Ee; cbn [bind] in H; try discriminate H.
+  destruct (mx <=? pos) eqn:MP; [injection H as <- <- <-; split7; first [lia | assumption | apply k5_refl | (intros; reflexivity)]|].
+  rstep H. cbv zeta in H.
+  destruct ((x =? 62) && negb (sc <? b_blkIndent st)) eqn:Q.
+  - (* a quoted line *)
+    rstep H.
+    match type of H with bind ?m _ = _ => destruct m as [q|?|] eqn:BS end; cbn [bind] in H; try discriminate H.
+    match type of H with bind ?m _ = _ => destruct m as [sv1|?|] eqn:SL end; cbn [bind] in H; try discriminate H.
+    match type of H with bind ?m _ = _ => destruct m as [st1|?|] eqn:AB end; cbn [bind] in H; try discriminate H.
+    apply bq_strip_spec in BS. destruct BS as (Q1 & Q2 & Q3).
+    destruct (save_line_m _ _ _ _ sl0 SL ltac:(lia) HT SO N1 N2) as (SO1 & M1 & M2).
+    assert (G : goodbt (b_src st) (b_eMarks st) nl (q_bMark q) (q_tShift q)).
+    { unfold line_start in LS. destruct (tb (b_bMarks st) nl) as [b0|?|] eqn:Eb; cbn [bind] in LS; try discriminate LS.
+      destruct (tb (b_tShift st) nl) as [t0|?|] eqn:Et; cbn [bind] in LS; try discriminate LS. rfinish LS.
+      pose proof (TIp_good _ _ _ _ nl _ _ HT ltac:(lia) Eb Et) as G0.
+      eapply goodbt_mono; [exact G0| |lia]. destruct (G0 mx Ee) as (A & B & _). lia. }
+    destruct (apply_bq_m _ _ _ _ AB ltac:(lia) HT G) as (HT1 & K1 & LM1 & SC1 & SC2).
+    destruct K1 as (K11 & K12 & K13 & K14 & K15).
+    apply IH in H; try lia; try assumption.
+    + destruct H as (A & B & C & D & E & F & G2). split7; try lia; try assumption.
+      * eapply k5_trans; [|exact F]. repeat split; assumption.
+      * intros j Hj. rewrite G2 by lia. apply SC2; lia.
+    + rewrite K13, K14. exact SO1.
+  - destruct lle; [injection H as <- <- <-; split7; first [lia | assumption | apply k5_refl | (intros; reflexivity)]|].
+    destruct (term nm_blockquote st nl el) as [[t st1]|?|] eqn:TE; cbn [bind] in H; try discriminate H.
+    pose proof (T _ _ _ _ _ _ TE) as E1. pose proof (fr_k5 _ _ E1) as (K11 & K12 & K13 & K14 & K15).
+    pose proof (fr_TI _ _ E1 HT) as HT1. pose proof (fr_lineMax _ _ E1) as LM1. pose proof (fr_sCount _ _ E1) as SC1.
+    destruct t.
+    + (* a terminator stops the quote here *)
+      cbv zeta in H. destruct (negb (b_blkIndent (st1 <| b_lineMax := nl |>) =? 0)).
+      * match type of H with bind ?m _ = _ => destruct m as [sv1|?|] eqn:SL end; cbn [bind] in H; try discriminate H.
+        match type of H with bind ?m _ = _ => destruct m as [scs|?|] eqn:TS end; cbn [bind] in H; try discriminate H.
+        injection H as <- <- <-. destruct (tb_set_spec _ _ _ _ TS ltac:(lia)) as (_ & W2 & _).
+        assert (HT2 : TI (st1 <| b_lineMax := nl |>)) by exact HT1.
+        destruct (save_line_m _ _ _ _ sl0 SL ltac:(lia) HT2 ltac:(cbn; rewrite K13, K14; exact SO) N1 N2) as (SO1 & M1 & M2).
+        cbn in SO1. split7; cbn; try lia; try assumption; try (repeat split; assumption).
+        intros j Hj. rewrite W2 by lia. cbn. rewrite SC1. reflexivity.
+      * injection H as <- <- <-. split7; cbn; try lia; try assumption; try (repeat split; assumption).
+        -- rewrite K13, K14. exact SO.
+        -- intros j Hj. rewrite SC1. reflexivity.
+    + (* a lazy continuation line *)
+      match type of H with bind ?m _ = _ => destruct m as [sv1|?|] eqn:SL end; cbn [bind] in H; try discriminate H.
+      match type of H with bind ?m _ = _ => destruct m as [scs|?|] eqn:TS end; cbn [bind] in H; try discriminate H.
+      destruct (tb_set_spec _ _ _ _ TS ltac:(lia)) as (_ & W2 & _).
+      destruct (save_line_m _ _ _ _ sl0 SL ltac:(lia) HT1 ltac:(rewrite K13, K14; exact SO) N1 N2) as (SO1 & M1 & M2).
+      apply IH in H; try lia; try assumption.
+      * destruct H as (A & B & C & D & E & F & G2). split7; try lia; try assumption.
+        -- cbn in C. lia.
+        -- eapply k5_trans; [|exact F]. repeat split; assumption.
+        -- intros j Hj. rewrite G2 by lia. cbn. rewrite W2 by lia. rewrite SC1. reflexivity.
+      * cbn. lia.
+Qed.
+
+Definition first_ok (st : bstate) (a : Z) : Prop := forall sc, tb (b_sCount st) a = Ok sc -> b_blkIndent st <= sc.
+
+(* the contract of the nested tokenize *)
+Definition rec_c (rec : rec_t) : Prop := forall st a b st',
+  rec st a b = Ok st' -> 0 <= a -> a < b -> b <= b_lineMax st -> TI st ->
+  b_lineMax st' = b_lineMax st /\ a <= b_line st' <= b_lineMax st /\ gm a (b_line st') st st' /\ TI st'
+  /\ b_src st' = b_src st /\ b_eMarks st' = b_eMarks st /\ (first_ok st a -> a < b_line st').
+
+Lemma r_blockquote_c rec term (R : rec_c rec) (T : term_fr term) st sl el silent b st' :
+  r_blockquote cfg rec term st sl el silent = Ok (b, st') -> rule_c st sl el silent b st'.
+Proof.
+  unfold r_blockquote. intros H.
+  destruct (line_start st sl) as [pos|?|] eqn:LS; cbn [bind] in H; try discriminate H.
+  destruct (tb (b_eMarks st) sl) as [mx|?|] eqn:Ee; cbn [bind] in H; try discriminate H.
+  rstep H. rstep H; [rfinish H; leaf_fail|].
+  rewrite match_some_62 in H.
+  rstep H; [|rfinish H; leaf_fail].
+  destruct silent; [rfinish H; leaf_fail|].
+  destruct (tb (b_sCount st) sl) as [sc|?|] eqn:Esc; cbn [bind] in H; try discriminate H.
+  rstep H.
+  match type of H with bind ?m _ = _ => destruct m as [q|?|] eqn:BS end; cbn [bind] in H; try discriminate H.
+  match type of H with bind ?m _ = _ => destruct m as [sv0|?|] eqn:SL end; cbn [bind] in H; try discriminate H.
+  match type of H with bind (apply_bq ?a ?b ?c) _ = _ => destruct (apply_bq a b c) as [st1|?|] eqn:AB end;
+    cbn [bind] in H; try discriminate H.
+  match type of H with bind ?m _ = _ => destruct m as [[[nl sv] st3]|?|] eqn:BL end; cbn [bind] in H; try discriminate H.
+  match type of H with bind (rec ?a ?b ?c) _ = _ => destruct (rec a b c) as [st6|?|] eqn:RC end;
+    cbn [bind] in H; try discriminate H.
+  match type of H with bind ?m _ = _ => destruct m as [st10|?|] eqn:RT end; cbn [bind] in H; try discriminate H.
+  injection H as <- <-. unfold rule_c. cbn [andb negb]. intros (Q0 & Q1 & Q2 & Q3 & HTI).
+  (* the first line *)
+  apply bq_strip_spec in BS. destruct BS as (B1 & B2 & B3).
+  assert (G : goodbt (b_src st) (b_eMarks st) sl (q_bMark q) (q_tShift q)).
+  { unfold line_start in LS. destruct (tb (b_bMarks st) sl) as [b0|?|] eqn:Eb; cbn [bind] in LS; try discriminate LS.
+    destruct (tb (b_tShift st) sl) as [t0|?|] eqn:Et; cbn [bind] in LS; try discriminate LS. injection LS as <-.
+    pose proof (TIp_good _ _ _ _ sl _ _ HTI ltac:(lia) Eb Et) as G0.
+    eapply goodbt_mono; [exact G0| |lia]. destruct (G0 mx Ee) as (A & B & _). lia. }
+  assert (SO0 : sv_ok (b_src st) (b_eMarks st) sl [] []) by exact I.
+  destruct (save_line_m (mkSaved [] [] [] []) st sl sv0 sl SL Q0 HTI SO0 ltac:(cbn; lia) ltac:(cbn; lia)) as (SO1 & M1 & M2).
+  destruct (apply_bq_m _ _ _ _ AB Q0 HTI G) as (HT1 & K1 & LM1 & SC1 & SC2).
+  destruct K1 as (K11 & K12 & K13 & K14 & K15).
+  apply (bq_loop_m term T sl) in BL; try lia.
+  2: cbn; lia.
+  2: exact HT1.
+  2: cbn; rewrite K13, K14; exact SO1.
+  destruct BL as (L1 & L2 & L3 & HT3 & SO3 & K3 & SC3). destruct K3 as (K31 & K32 & K33 & K34 & K35).
+  cbn in L3, K31, K32, K33, K34, K35.
+  (* the nested block loop *)
+  destruct (R _ _ _ _ RC Q0 ltac:(lia) ltac:(cbn; lia) HT3) as (C1 & C2 & C3 & HT6 & C5 & C6 & C7). cbn in C1, C2, C5, C6.
+  assert (FO : first_ok (bpush (st3 <| b_blkIndent := 0 |>) [98; 108; 111; 99; 107; 113; 117; 111; 116; 101; 95; 111; 112; 101; 110] nm_blockquote 1
+                              (fun t => map_tok sl 0 (set_markup t [62]))) sl).
+  { intros s0 E0. cbn in E0. rewrite SC3 in E0 by lia. cbn in E0. rewrite SC1 in E0. injection E0 as <-. cbn. lia. }
+  specialize (C7 FO).
+  (* restoring the tables *)
+  apply restore_tables_m in RT; [|exact Q0| |].
+  2: { cbn. exact HT6. }
+  2: { cbn. rewrite C5, C6. cbn. exact SO3. }
+  destruct RT as (HT10 & K10 & LM10). destruct K10 as (K101 & K102 & K103 & K104 & K105).
+  cbn in LM10, K102. unfold st_parent in K101. cbn -[set_map_at bpush app] in K101.
+  split; [cbn; exact LM10|].
+  split; [cbn; rewrite K102; lia|].
+  split; [|exact HT10].
+  cbn [b_line set]. rewrite K102. unfold gm. cbn [b_tokens set]. rewrite K101.
+  destruct C3 as (seg & ES & FS).
+  rewrite bpush_tokens, ES, bpush_tokens.
+  change (b_tokens (st3 <| b_blkIndent := 0 |>)) with (b_tokens st3). rewrite K31, K11.
+  rewrite <- !app_assoc. cbn [app]. unfold set_map_at. rewrite update_nth_app.
+  eexists. split; [reflexivity|]. constructor; [unfold map_in; cbn; lia|].
+  apply Forall_app. split; [exact FS|]. repeat constructor; unfold map_in; cbn; trivial.
 Qed.
 
 End Rules.
